@@ -19,6 +19,7 @@ RULE = ("lists of 1..5 pipelines with arbitrary priorities (incl. equal), 0..2 t
         "; resolver specs differ from declared names (duplicates allowed); marker items gated by state their own pipeline sets (named conditions + expression / list form); backend converted with another output format first"
         "; every composed pipeline also converts an empty collection (finalizers run once on the empty list)")
 RULE += '; round 4: entry points convert(collection, fmt) / convert_rule(rule, fmt) for the default and a second output format, on a fresh backend and after the same backend object served the other format through either entry point'
+RULE += '; round 6: convert_rule(rule) without format after the other format was served; a nested item reading variable v in operands applied before composing'
 ASSUMPTIONS = [
     "order is observed through markers (field-name suffixes, query wrappers, output wrappers); Jinja2 renders the finalizer templates",
     "pipeline names are distinct within a list; name order is Python string order",
@@ -65,6 +66,11 @@ def gen_cases(tier, seed, gen, effort):
         n = rnd.randint(1, 5)
         ps = gen_pipes(rnd, n)
         cases.append({"op": "tree", "pipes": ps, "tree": rand_tree(rnd, list(range(n)))})
+        if any("v" in p["vars"] for p in ps) and n >= 2:
+            # a nested pipeline whose item reads variable v sits in every operand that defines v; operands may have been USED (applied to a
+            # rule) before they are composed: the nested item reads the variables of the pipeline that runs, i.e. of the composition
+            cases.append({"op": "tree", "pipes": ps, "tree": rand_tree(rnd, list(range(n))), "nestvar": True,
+                          "preapply": [i for i in range(n) if rnd.random() < 0.6]})
         order = rnd.sample(range(n), n)
         cases.append({"op": "resolve", "pipes": ps, "order": order, "order2": rnd.sample(range(n), n)})
         if n >= 3:
@@ -73,13 +79,15 @@ def gen_cases(tier, seed, gen, effort):
             # same backend object served the other output format run backend + user + the pipeline of the REQUESTED format
             cases.append({"op": "init", "pipes": ps[:3], "via": rnd.choice(["convert", "rule", "rule"]), "target": rnd.choice(["default", "alt"]),
                           "history": rnd.choice([None, "convert", "rule"])})
+            # the default format asked for by leaving the argument out, after the other format was served
+            cases.append({"op": "init", "pipes": ps[:3], "via": "rule", "target": "default", "history": rnd.choice(["convert", "rule"]), "implicit": True})
             # `convert` assembles the pipeline anew on every call: also after the user replaced `backend.processing_pipeline` on a used backend
             # (`convert_rule` is documented to initialise only "if not already done": not judged for this history)
             cases.append({"op": "init", "pipes": ps[:3], "via": "convert", "target": rnd.choice(["default", "alt"]), "history": "swapuser"})
     return cases, False
 
 
-def build(p):
+def build(p, nestvar=False):
     from sigma.processing.pipeline import ProcessingPipeline
     # every marker item is gated by a pipeline state that an item of its OWN pipeline sets just before: after any composition the
     # gate must still see the state of the pipeline that runs (named conditions + expression for odd markers, list form for even)
@@ -93,6 +101,8 @@ def build(p):
         else:
             it["rule_conditions"] = [cond]
         ts.append(it)
+    if nestvar and "v" in p["vars"]:
+        ts.append({"id": f"nest_{p['name']}", "type": "nest", "items": [{"id": f"vp_{p['name']}", "type": "value_placeholders", "include": ["v"]}]})
     d = {"name": p["name"], "priority": p["priority"], "vars": {k: v for k, v in p["vars"].items()},
          "transformations": ts,
          "postprocessing": [{"id": f"q{k}", "type": "embed", "prefix": f"P{k}(", "suffix": ")"} for k in p["post"]],
@@ -100,9 +110,11 @@ def build(p):
     return ProcessingPipeline.from_dict(d)
 
 
-def observe(backend_cls, pipeline, user=True, first_format=None, via="convert", target=None, first_via="convert"):
+def observe(backend_cls, pipeline, user=True, first_format=None, via="convert", target=None, first_via="convert", implicit=False, nestvar=False):
     from sigma.collection import SigmaCollection
     doc = {"title": "t", "logsource": {"category": "c"}, "detection": {"sel": {"f": "v"}, "condition": "sel"}}
+    if nestvar:
+        doc["detection"]["sel"]["h|expand"] = "%v%"
     coll = SigmaCollection.from_dicts([doc])
     b = backend_cls(pipeline) if user else backend_cls()
     if first_via == "swapuser":       # history: the same backend object converted (same format) with ANOTHER user pipeline, which was then replaced
@@ -115,8 +127,8 @@ def observe(backend_cls, pipeline, user=True, first_format=None, via="convert", 
             b.convert_rule(SigmaCollection.from_dicts([doc]).rules[0], first_format)
         else:
             b.convert(SigmaCollection.from_dicts([doc]), first_format)
-    if via == "rule":                 # a single rule, output format named (or left to the default): queries only, no finalizers
-        out = b.convert_rule(coll.rules[0], None if target == "default" and first_format is None else target)
+    if via == "rule":                 # a single rule, output format named or left out (= the default format): queries only, no finalizers
+        out = b.convert_rule(coll.rules[0], None if target == "default" and (first_format is None or implicit) else target)
     else:
         out = b.convert(coll, target) if target is not None else b.convert(coll)
     text = out if isinstance(out, str) else ";".join(map(str, out))
@@ -132,8 +144,10 @@ def observe(backend_cls, pipeline, user=True, first_format=None, via="convert", 
     out0 = b.convert(SigmaCollection.from_dicts([]), target) if target is not None else b.convert(SigmaCollection.from_dicts([]))
     text0 = out0 if isinstance(out0, str) else ";".join(map(str, out0))
     fins0 = [int(x) for x in re.findall(r"F(\d+)<", text0)][::-1]
+    mv = re.search(r"'h(?:_\d+)*' \"?(\d+)\"?\]", text)
     return {"items": items, "post": post, "fins": fins, "fins_empty": fins0, "text_empty": text0, "vars": {k: v for k, v in lp.vars.items() if k in ("v", "w")},
-            "applied": sorted(x for x in lp.applied_ids if not x.startswith("s")), "text": text}
+            "applied": sorted(x for x in lp.applied_ids if not x.startswith(("s", "nest_", "vp_"))), "text": text,
+            "seen_v": int(mv.group(1)) if mv else None}
 
 
 def spec_of(case, i):
@@ -146,11 +160,19 @@ def run_impl(case):
     try:
         B = qsyntax.make_backend(BASE_CFG)
         if case["op"] == "tree":
-            objs = [build(p) for p in case["pipes"]]
+            objs = [build(p, case.get("nestvar", False)) for p in case["pipes"]]
+            if case.get("preapply"):
+                from sigma.rule import SigmaRule
+                for i in case["preapply"]:
+                    try:
+                        objs[i].apply(SigmaRule.from_dict({"title": "pre", "logsource": {"category": "c"},
+                                                           "detection": {"sel": {"f": "v", "h|expand": "%v%"}, "condition": "sel"}}))
+                    except Exception:
+                        pass          # an operand without v cannot resolve the placeholder on its own: part of the history
 
             def ev(t):
                 return objs[t] if isinstance(t, int) else ev(t[0]) + ev(t[1])
-            return {"outcome": "ok", "obs": observe(B, ev(case["tree"]))}
+            return {"outcome": "ok", "obs": observe(B, ev(case["tree"]), nestvar=case.get("nestvar", False))}
         if case["op"] == "resolve":
             objs = [build(p) for p in case["pipes"]]
             # the pipelines are registered under specs that differ from their declared names (as files / plugin keys do)
@@ -174,7 +196,8 @@ def run_impl(case):
                                       "finalize_output_alt": lambda self, queries: ";".join(map(str, queries))})
             if "via" in case:
                 return {"outcome": "ok", "obs": observe(B2, u, first_format=({"default": "alt", "alt": "default"}[target] if case.get("history") in ("convert", "rule") else None),
-                                                        via=case["via"], target=target, first_via=case.get("history") or "convert")}
+                                                        via=case["via"], target=target, first_via=case.get("history") or "convert",
+                                                        implicit=bool(case.get("implicit")))}
             return {"outcome": "ok", "obs": observe(B2, u, first_format="alt" if case.get("history") else None)}
     except Exception as e:
         return {"outcome": outcome_of_exception(e), "msg": str(e)[:200]}
@@ -196,7 +219,7 @@ def make_request(case, impl, gen):
 
 def judge(case, impl, reply):
     io = impl["outcome"]
-    key = (case["op"], case["pipes"], case.get("tree"), case.get("order"), case.get("history"), case.get("via"), case.get("target"))
+    key = (case["op"], case["pipes"], case.get("tree"), case.get("order"), case.get("history"), case.get("via"), case.get("target"), case.get("implicit"), case.get("nestvar"), tuple(case.get("preapply") or ()))
     markers = sum(len(p["items"]) + len(p["post"]) + len(p["fins"]) for p in case["pipes"])
     nt = len(case["pipes"]) >= 2 and markers >= 2
     tags = (f"op:{case['op']}", f"n:{len(case['pipes'])}", f"impl:{io.split(':')[0]}")
@@ -213,7 +236,7 @@ def judge(case, impl, reply):
         got = {k: obs[k] for k in want_}
         if got != want_:
             which = [k for k in want_ if got[k] != want_[k]]
-            how = (f" via {'convert_rule(rule' if case['via'] == 'rule' else 'convert(collection'}, {case['target']!r})"
+            how = (f" via {'convert_rule(rule' if case['via'] == 'rule' else 'convert(collection'}{'' if case.get('implicit') else ', ' + repr(case['target'])})"
                    + (" after a conversion with another user pipeline that was then replaced (backend.processing_pipeline = …)" if case.get("history") == "swapuser" else
                       f" after {'convert_rule' if case.get('history') == 'rule' else 'convert'} with the other output format on the same backend object" if case.get("history") else " on a fresh backend")) if "via" in case else \
                   (" (the backend object converted with output format alt first)" if case.get("history") else "")
@@ -224,6 +247,10 @@ def judge(case, impl, reply):
         if not rule_only and obs.get("fins_empty") != want["fins"]:
             return Verdict("violation", (f"{label}{case['op']}: converting an empty collection gives {obs.get('text_empty')!r}: finalizers {obs.get('fins_empty')} ran, "
                                          f"but the composed pipeline's finalizers {want['fins']} run once on the whole (here empty) list"), nt, key, tags=tags)
+        if case.get("nestvar") and obs.get("seen_v") != want["vars"].get("v"):
+            return Verdict("violation", (f"{label}{case['op']} {case.get('tree')} of {[(p['name'], p['vars']) for p in case['pipes']]} (operands {case.get('preapply')} were applied to a rule "
+                                         f"before composing): the item inside the nested pipeline replaced %v% by {obs.get('seen_v')!r}, the composed pipeline's variable v is "
+                                         f"{want['vars'].get('v')!r}; output {obs['text']!r}"), nt, key, tags=tags)
         if obs["applied"] != sorted(set([f"i{k}" for k in want["items"]] + [f"q{k}" for k in want["post"]])):
             return Verdict("violation", f"{label}applied item identifiers {obs['applied']} do not match the composed items {want['items']} / {want['post']}", nt, key, tags=tags)
     return Verdict("ok", "", nt, key, tags=tags)
